@@ -5,6 +5,7 @@ CONSTANTS
   MaxChange = 2
   Bug = "absorb_strips_source"
   Emit = FALSE
+  Directed = FALSE
   Shapes <- ShapesL3
 INVARIANTS InvLaws
 CHECK_DEADLOCK FALSE
